@@ -331,4 +331,47 @@ theorem ring_self_ne {h : Heap} {r : Nat} {xs : List Nat} {e : Nat}
     · rw [m]; exact List.mem_cons_self
     · exact List.mem_cons_of_mem _ (List.mem_append_right _ (List.mem_cons_of_mem _ m))
 
+/-! ### frames at node level -/
+
+theorem node_ext {x y : Node} (h1 : x.prev = y.prev) (h2 : x.next = y.next) (h3 : x.owner = y.owner)
+    (h4 : x.val = y.val) : x = y := by
+  cases x; cases y; simp_all
+
+theorem link_frame (h : Heap) {e a j : Nat} (h1 : j ≠ e) (h2 : j ≠ a) (h3 : j ≠ (h a).next) (hne : e ≠ a) :
+    link h e a j = h j := by
+  apply node_ext
+  · rw [link_prev h hne, if_neg h3, if_neg h1]
+  · rw [link_next h hne, if_neg h2, if_neg h1]
+  · simp
+  · simp
+
+theorem unlink_frame (h : Heap) {e j : Nat} (h1 : j ≠ (h e).prev) (h2 : j ≠ (h e).next) (hne : e ≠ (h e).prev) :
+    unlink h e j = h j := by
+  apply node_ext
+  · rw [unlink_prev h hne, if_neg h2]
+  · rw [unlink_next, if_neg h1]
+  · simp
+  · simp
+
+/-- The neighbours of a ring node are ring nodes. -/
+theorem ring_next_mem {h : Heap} {r : Nat} {xs : List Nat} {a : Nat}
+    (hr : Ring h r xs) (hnd : (r :: xs).Nodup) (ha : a ∈ r :: xs) : (h a).next ∈ r :: xs := by
+  rcases List.mem_cons.1 ha with k | m
+  · subst k
+    rw [(ring_root hr).1]
+    cases hx : xs.head? with
+    | none => simp
+    | some b => simp only [Option.getD_some]; exact List.mem_cons_of_mem _ (List.mem_of_head? hx)
+  · exact (ring_self_ne hr hnd m).2.2.2
+
+theorem ring_prev_mem {h : Heap} {r : Nat} {xs : List Nat} {a : Nat}
+    (hr : Ring h r xs) (hnd : (r :: xs).Nodup) (ha : a ∈ r :: xs) : (h a).prev ∈ r :: xs := by
+  rcases List.mem_cons.1 ha with k | m
+  · subst k
+    rw [(ring_root hr).2]
+    cases hx : xs.getLast? with
+    | none => simp
+    | some b => simp only [Option.getD_some]; exact List.mem_cons_of_mem _ (List.mem_of_getLast? hx)
+  · exact (ring_self_ne hr hnd m).2.2.1
+
 end Hive.DList
